@@ -655,7 +655,7 @@ def c04():
                    remap_props={"C03:": "C04"}),
               _sim_tcp_run("fuzz", 2000, 40000), _sim_tcp_run("faults", 512, 10240)],
         floors={"c04/streams_x_chunkings": T(70000, 950000), "c04/post_exchange_probes": T(17000, 240000), "sim/response/defective": T(10000, 200000),
-                "sim/response/truncated": T(2000, 40000), "libfuzzer/executions": T(15000, 1500000)},
+                "sim/response/truncated": T(2000, 30000), "libfuzzer/executions": T(15000, 1500000)},
         rule=(SIM_RULE_COMMON + "fuzz: a structure-aware generator builds a well-formed answer (Cache Response, up to 24 prefix / router-key "
               "PDUs, optional Error Report, End of Data) and applies 0-3 mutations: length field from {0,1,7,8,9,12,20,24,32,3247,3248,3249, "
               "65535,65536,2^31-1,2^31,2^32-1, correct+-4}, type, version, flags / prefix length / max length / zero byte from "
